@@ -288,6 +288,11 @@ func (enc *Encoder) Literal(size int64, sync *ContinuationRequest) io.WriteClose
 			return errorWriter{err}
 		}
 	}
+	if enc.err != nil {
+		// Nothing of this command must be written anymore, e.g. because an
+		// earlier literal has been refused: drop the literal data as well
+		return errorWriter{enc.err}
+	}
 
 	enc.literal = true
 	return &literalWriter{
